@@ -32,7 +32,10 @@ class DBSchema(object):
         tables = []
         created_tables = set()
         split = schema.provider.split_table_name
-        tables_to_create = sorted(schema.tables.values(), key=lambda table: split(table.name))
+        def sort_key(table):
+            schema_name, table_name = split(table.name)
+            return schema_name or '', table_name  # unqualified names have no schema: None does not compare with str
+        tables_to_create = sorted(schema.tables.values(), key=sort_key)
         while tables_to_create:
             for table in tables_to_create:
                 if table.parent_tables.issubset(created_tables):
